@@ -250,9 +250,9 @@ def selftest():
 
 
 SUBCHECKS = [
-    Sub('C17.tobytes_bytes_tofile', run_write, strategy=write_case, examples={'quick': 6000, 'thorough': 80000}, ambient=('lsb0',)),
+    Sub('C17.tobytes_bytes_tofile', run_write, strategy=write_case, examples={'quick': 6000, 'thorough': 80000}, ambient=('lsb0', 'bytealigned')),
     Sub('C17.tofile_chunk_boundary_hook', run_chunks, enum=enum_chunks,
         enum_exhaustive_note='chunk sizes 8/64/4096 bits (hook) x k in {1,2,3} chunks x offsets -9..9 bits around k*chunk'),
     Sub('C17.tofile_real_chunk_boundary', run_real, enum=enum_real, enum_exhaustive_note='data just above the real 100 MiB chunk size (quick: 1 size; thorough: 5 sizes incl. 2 chunks) without the hook'),
-    Sub('C17.readback_window', run_read, strategy=read_case, examples={'quick': 8000, 'thorough': 120000}, ambient=('lsb0',)),
+    Sub('C17.readback_window', run_read, strategy=read_case, examples={'quick': 8000, 'thorough': 120000}, ambient=('lsb0', 'bytealigned')),
 ]
